@@ -791,3 +791,27 @@ def random_ifds_units(rnd, n):
         a, b = rnd.choice([(ds1, ds2), (ds1, ds2), (ds1, sc), (sc, ds2), (ds1, ds1)])
         units.append({'id': 'if%d' % i, 'env': env, 'term': {'k': 'if', 'c': cond, 't': a, 'e': b}, 'cc': True})
     return units
+
+
+def random_caseds_units(rnd, n):
+    """dataset-level case with mutually exclusive conditions over one Integer dataset (= 0, = 1, > 1), then / else datasets or scalars"""
+    units = []
+    for i in range(n):
+        ids = [('Id_1', 'Integer')]
+        env = {'DS_n': gen.shuffled(rnd, gen.dataset(rnd, ids, [('Me_1', 'M', 'Integer')], rnd.choice([0, 3, 6, 8]), keyspace=3, null_p=0.25))}
+        for r in env['DS_n']['rows']:
+            if r['Me_1'][0] == 1:
+                r['Me_1'] = I(rnd.choice([0, 1, 2, 3]))
+        for nm in ('DS_1', 'DS_2', 'DS_3'):
+            env[nm] = gen.shuffled(rnd, gen.dataset(rnd, ids, [('Me_1', 'M', 'Number'), ('Me_2', 'M', 'Integer')], rnd.choice([0, 3, 6, 8]), keyspace=3, null_p=0.2))
+        conds = [{'k': 'bin', 'op': '=', 'l': var('DS_n'), 'r': const(I(0))}, {'k': 'bin', 'op': '=', 'l': var('DS_n'), 'r': const(I(1))},
+                 {'k': 'bin', 'op': '>', 'l': var('DS_n'), 'r': const(I(1))}]
+        k = rnd.choice([1, 2, 2, 3])
+        conds = rnd.sample(conds, k)
+        opnd = lambda: rnd.choice([var('DS_1'), var('DS_2'), var('DS_3'), const(I(rnd.choice([0, 9])))])
+        whens = [[c, opnd()] for c in conds]
+        e = opnd()
+        if all(x.get('k') == 'const' for x in [w[1] for w in whens] + [e]):
+            e = var('DS_3')
+        units.append({'id': 'cs%d' % i, 'env': env, 'term': {'k': 'case', 'whens': whens, 'else': e}, 'cc': True})
+    return units
